@@ -28,8 +28,10 @@ fn sample_archives(rng: &mut Rng, quick: bool, st: &mut Stats) -> Vec<Vec<u8>> {
         v.push(write_plain(mode, &small_logical_ops(rng, [0, 3, 12, 40][k], st, Some(*c))).expect("write"));
     }
     v.push(write_plain("sync", &spill_ops(rng, 4300, Compression::None)).expect("write"));
+    v.push(write_plain("async", &spill_ops(rng, if quick { 2 * 4300 } else { 20_000 }, Compression::GZip)).expect("write"));
     if !quick {
-        v.push(write_plain("async", &spill_ops(rng, 9000, Compression::GZip)).expect("write"));
+        v.push(write_plain("sync", &spill_ops(rng, 12_000, Compression::ZStd)).expect("write"));
+        v.push(write_plain("sync", &spill_ops(rng, 12_000, Compression::Brotli)).expect("write"));
     }
     for k in 0..(if quick { 10 } else { 40 }) {
         let mut o = foreign_opts(rng, k + 1, true);
@@ -438,6 +440,15 @@ pub fn gen(prop: &str, rng: &mut Rng, quick: bool, st: &mut Stats) -> Option<Vec
                 c.push(format!("chk_sa_hist {}", ops.join(";")));
             }
             c.push(format!("chk_sa_hist {};s:X:Y;l;n", spill_ops(rng, 4300, Compression::None)));
+            // range-filtered opens with bounds at 0 and at the top, on archives that contain tile 0
+            for k in 0..(if quick { 6 } else { 40 }) {
+                let mut ops0 = vec!["a:0:0101".to_string(), "a:1:0202".into(), format!("a:{:x}:0303", BASE32 - 1)];
+                ops0.push(small_logical_ops(rng, 5 + k, st, Some(ALL_COMP[k % 4])));
+                let b = write_plain(if k % 2 == 0 { "sync" } else { "async" }, &ops0.join(";")).expect("write");
+                for rg in ["u_e0", "i0_e0", "i0_i0", "e0_u", "u_i0", "e0_e1", "i0_e1", "u_u", "i1_u", "e5555555555555553_u", "i5555555555555554_i5555555555555554", "u_effffffffffffffff", "effffffffffffffff_u", "i5_i3"] {
+                    c.push(format!("chk_sa_hist o:X:{rg}:{};l;n;g:0;g:1;g:5555555555555554", hex_bytes(&b)));
+                }
+            }
             // single operations
             for k in 0..(if quick { 60 } else { 600 }) {
                 let es = valid_entries(rng, 1 + k % 50, true, k % 3 == 0, st);
